@@ -472,7 +472,7 @@ def literal_dicts(path):
 
 
 FDIV = {'g_LZW', 'g_LC', 'g_CWF'}
-QDIV = {'g_meanHydropathy', 'g_uverskyHydropathy', 'g_meanWWHydropathy', 'g_molecular_weight', 'g_FPPII_chain', 'g_fraction_disorder_promoting', 'g_FER', 'g_linHydro', 'g_charge_at_pH', 'g_SCD', 'g_sigma', 'g_deltaForm', 'g_delta', 'g_kappa', 'g_Fplus', 'g_Fminus', 'g_FCR', 'g_NCPR'}
+QDIV = {'g_linDensity', 'g_meanHydropathy', 'g_uverskyHydropathy', 'g_meanWWHydropathy', 'g_molecular_weight', 'g_FPPII_chain', 'g_fraction_disorder_promoting', 'g_FER', 'g_linHydro', 'g_charge_at_pH', 'g_SCD', 'g_sigma', 'g_deltaForm', 'g_delta', 'g_kappa', 'g_Fplus', 'g_Fminus', 'g_FCR', 'g_NCPR'}
 
 FUNCS = [
     # (Coq name, file, class, function, prefixes under which the data module's names are visible there)
@@ -558,6 +558,7 @@ FUNCS = [
     ('g_deltaForm', 'localcider/backend/sequence.py', 'Sequence', 'deltaForm', []),
     ('g_delta', 'localcider/backend/sequence.py', 'Sequence', 'delta', []),
     ('g_kappa', 'localcider/backend/sequence.py', 'Sequence', 'kappa', []),
+    ('g_linDensity', 'localcider/backend/sequence.py', 'Sequence', 'linearDenistyOfAAs', []),
     ('g_linHydro', 'localcider/backend/sequence.py', 'Sequence', 'linearDistOfHydropathy', ['aminoacids.']),
     ('g_linNCPR', 'localcider/backend/sequence.py', 'Sequence', 'linearDistOfNCPR', []),
     ('g_linFCR', 'localcider/backend/sequence.py', 'Sequence', 'linearDistOfFCR', []),
